@@ -3,7 +3,8 @@
 use crate::{Error, Result};
 
 use arrow::compute::{concat_batches, sort_to_indices, take};
-use arrow_array::RecordBatch;
+use arrow_array::{new_null_array, RecordBatch};
+use arrow_schema::{Field, Schema, SchemaRef};
 use object_store::ObjectStore;
 use parquet::arrow::arrow_reader::ParquetRecordBatchReaderBuilder;
 use std::sync::Arc;
@@ -32,11 +33,76 @@ impl ChunkMerger {
             return Err(Error::InvalidSchema("No data to merge".into()));
         }
 
-        // Concatenate all batches
-        let schema = batches[0].schema();
-        let merged = concat_batches(&schema, &batches)?;
+        // Concatenate all batches. Chunks flushed before and after a schema change (a
+        // different label set) sit side by side, so line the columns up by name first.
+        let schema = Self::unified_schema(&batches)?;
+        let aligned = batches
+            .iter()
+            .map(|batch| Self::align_batch(batch, &schema))
+            .collect::<Result<Vec<_>>>()?;
+        let merged = concat_batches(&schema, &aligned)?;
 
         Ok(merged)
+    }
+
+    /// Union of the batches' columns by name, in order of first appearance
+    fn unified_schema(batches: &[RecordBatch]) -> Result<SchemaRef> {
+        let first = batches[0].schema();
+        if batches.iter().all(|batch| batch.schema() == first) {
+            return Ok(first);
+        }
+
+        let mut fields: Vec<Field> = Vec::new();
+        for batch in batches {
+            for field in batch.schema().fields() {
+                match fields.iter_mut().find(|f| f.name() == field.name()) {
+                    Some(existing) => {
+                        if existing.data_type() != field.data_type() {
+                            return Err(Error::InvalidSchema(format!(
+                                "Column {} is {} in one chunk and {} in another",
+                                field.name(),
+                                existing.data_type(),
+                                field.data_type()
+                            )));
+                        }
+                        if field.is_nullable() {
+                            *existing = existing.clone().with_nullable(true);
+                        }
+                    }
+                    None => fields.push(field.as_ref().clone()),
+                }
+            }
+        }
+
+        // Rows of a chunk that lacks a column hold nulls there
+        for field in fields.iter_mut() {
+            if batches
+                .iter()
+                .any(|batch| batch.schema().index_of(field.name()).is_err())
+            {
+                *field = field.clone().with_nullable(true);
+            }
+        }
+
+        Ok(Arc::new(Schema::new(fields)))
+    }
+
+    /// Reorder a batch's columns to `schema`, filling the ones it lacks with nulls
+    fn align_batch(batch: &RecordBatch, schema: &SchemaRef) -> Result<RecordBatch> {
+        if &batch.schema() == schema {
+            return Ok(batch.clone());
+        }
+
+        let columns = schema
+            .fields()
+            .iter()
+            .map(|field| match batch.column_by_name(field.name()) {
+                Some(column) => column.clone(),
+                None => new_null_array(field.data_type(), batch.num_rows()),
+            })
+            .collect();
+
+        Ok(RecordBatch::try_new(schema.clone(), columns)?)
     }
 
     /// Read a Parquet chunk from object storage
